@@ -6,7 +6,7 @@ from vlib import core
 from vlib.registry import COMMON_NOTE
 
 # 0 = the pinned upstream `sample` (finding F18 present), 1 = with proposed_fixes/C18-F18.patch applied
-FIX = int(os.environ.get("VERIF_C18_FIX", "0"))
+FIX = int(os.environ.get("VERIF_C18_FIX", "1"))  # F18 fixed in /repo (e3725cd97)
 
 REGISTRATION = {
     "engine": "lean-sampler",
